@@ -13,9 +13,15 @@ T={
 'C09':(E5,"full product of a boundary grid of clock/increment values for mover and opponent x movestogo x colour through the real time policy, and all orderings of the go keys through the real parser, against exact integer arithmetic","complete enumeration of a boundary grid against an exact reference","4 C09"),
 'C14':(E5,"all placements of <=2 (quick) / <=3 (thorough) pieces of the 12 types on any squares, every material vector on extremal squares, all non-placement fields toggled: mirror, negation, purity identities and magnitude bound","complete enumeration of a bounded placement space with algebraic identities as oracle","4 C14"),
 'C15':(E5,"all strings up to length 3/4 over a class-representative alphabet as whole input, per field and per placement row, under catch_unwind; the oracle's FEN of every small-scope family state with all pairs of 11 counter values loaded and compared field by field","complete enumeration of bounded input strings + reference model comparison","4 C15"),
+'C07':(E2,"for 20 roots: the un-expired run and EVERY clock-expiry index k=0..K of the real get_best_move under a virtual clock; prefix relation to the un-expired run, legality, repetition record restored as a count function, no panic, determinism","exhaustive enumeration of crash (clock-expiry) points of the real search against its own un-expired run","4 C07"),
+'C10':(E2,"all move paths (not states) to a depth from repetition-prone roots and constructed n-fold cycles (n<=100) through the real position handler against a reference multiset; real search from every history that offers a repetition move","exhaustive enumeration of bounded histories against a reference multiset + searches from each","4 C10"),
+'C11':(E2,"every legal non-terminal position of the complete KQK and KRK families searched by the real search; each mate announcement judged against exact retrograde distance-to-mate tables built over the rules oracle","complete family enumeration against retrograde (backward-reachability) tables","4 C11"),
+'C12':(E2,"KQK/KRK families on a stride, all short histories from low-material roots, repetition histories: iterations 1..3 of the real search compared move by move with plain negamax over the engine's own generator and evaluation","bounded exhaustive enumeration of roots/histories against a reference minimax","4 C12"),
+'C18':(E2,"every info line of every run of the expiry sweep (all roots, all expiry indices): grammar, bounds, first PV move legal and equal to the move handed back, monotone depth, increasing scores","exhaustive enumeration of clock-expiry points; every emitted line checked","4 C18"),
 }
 NOTE={
 E1:"trusted: the rules oracle (self-tested against 40 published perft totals on every run), 128-bit state fingerprints; bounds: depth limits per root and the listed families, not all positions",
+E2:"trusted: the virtual clock seam (hook H2), the rules oracle, the reference search / retrograde tables in the harness; bounds: the root set and iteration depths stated in the evidence",
 E5:"trusted: the reference arithmetic / rules oracle in the harness; bounds: the stated enumeration limits (piece counts, string length, grid), argued in DESIGN.md §6",
 }
 m={
@@ -24,6 +30,7 @@ m={
  "hooks":{"guard":"cargo feature `verif` (and `verif_loom`, which implies it)","enable":"harness crates #[path]-include /repo/src/*.rs with feature verif on; the real binary is built with `cargo build --features verif`","baseline_off_cmd":"cd /repo && cargo test --workspace --no-fail-fast --offline","source_commits":["ae82532"],"add_only":True},
  "engines":[
   {"name":E1,"path":"harness/src/e1_posgraph.rs","serves_properties":["C01","C02","C03","C04","C05","C13"],"kind_free_text":"explicit-state BFS over chess positions; transition function = the engine's real generate_moves; oracle = independent rules model (harness/src/rules.rs)"},
+  {"name":E2,"path":"harness/src/e2_clockpoints.rs","serves_properties":["C03","C07","C10","C11","C12","C18"],"kind_free_text":"runs the real get_best_move on the calling thread under a virtual clock for every expiry index; reference search and retrograde tables as oracles"},
   {"name":E5,"path":"harness/src/e5_pure.rs","serves_properties":["C06","C09","C14","C15"],"kind_free_text":"complete nested-loop enumeration of bounded input spaces for pure functions"},
  ],
  "checks":[],
